@@ -106,7 +106,14 @@ def hdlc_case_st(draw):
 
 # ------------------------------------------------------------------------------------------- P1
 
-P1_NOISE = ["empty", "random", "random-ascii", "ident-only", "ident-and-lines", "ident-no-lf", "slash-long-no-lf", "long-no-lf", "truncated-readout", "readout-tail", "end-line-only", "non-ascii-ident", "ident-then-long-line", "many-ident-lines"]
+P1_NOISE = ["empty", "random", "random-ascii", "ident-only", "ident-and-lines", "ident-no-lf", "slash-long-no-lf", "long-no-lf", "truncated-readout", "readout-tail", "end-line-only", "non-ascii-ident", "ident-then-long-line", "many-ident-lines",
+            "readout-nonascii-end-line", "readout-bad-end-line", "bang-in-ident", "readout-nonascii-data", "structural-tokens", "structural-tokens"]
+
+_P1_TOKENS = [
+    b"/", b"!", b"\n", b"\r\n", b"\x80", b"\xff", b"\xc3\xa6", b"/LGF5E360\r\n", b"/ABC5a!b\r\n", b"/AB\xc3\xa65x\r\n", b"/ABC5x\n", b"/abc\r\n",
+    b"!ZZZZ\r\n", b"!12\xff4\r\n", b"!\r\n", b"!A077\r\n", b"!0000\r\n", b"!\xff\r\n", b"!12", b"!G\n", b"1-0:1.8.0(00001605.055*kWh)\r\n", b"1-0:1.8.0(\xe5)\r\n",
+    b"/ABC5x\r\n1-0:1.7.0(1*kW)\r\n", b"(", b")", b"\x7e", b"\r",
+]
 
 
 def expand_p1_noise(kind, arg, seed):
@@ -140,6 +147,16 @@ def expand_p1_noise(kind, arg, seed):
         return b"/ABC5noise\r\n1-0:1.7.0(" + bytes(rnd.choice(b"0123456789") for _ in range(8200 + arg % 2000))
     if kind == "many-ident-lines":
         return b"".join(b"/ABC5n%03d\r\n" % i for i in range(1 + arg % 20))
+    if kind == "readout-nonascii-end-line":
+        return b"/ABC5noise\r\n1-0:1.7.0(1*kW)\r\n!12" + bytes([0x80 + arg % 128]) + b"4\r\n"
+    if kind == "readout-bad-end-line":
+        return b"/ABC5noise\r\n1-0:1.7.0(1*kW)\r\n!" + rnd.choice([b"ZZZZ", b"12 34", b"-1", b"0x", b"G", b"1" * 40]) + b"\r\n"
+    if kind == "bang-in-ident":
+        return b"/ABC5a!b\r\n1-0:1.7.0(1*kW)\r\n!\r\n"
+    if kind == "readout-nonascii-data":
+        return b"/ABC5noise\r\n1-0:1.7.0(" + bytes([0x80 + arg % 128]) + b"*kW)\r\n!\r\n"
+    if kind == "structural-tokens":
+        return b"".join(rnd.choice(_P1_TOKENS) for _ in range(1 + arg % 12))
     raise ValueError(kind)
 
 
@@ -183,9 +200,10 @@ def build() -> Check:
             "sequence(s), complete frame + flag + 7D, header announcing 2047 octets, truncated second frame, >2047 flag-free octets, flags, "
             "7E/7D-dense bytes) followed by 2..40 sequence-numbered clean frames delimited by shared or double flags (flag-free without "
             "stuffing), x splittings x 4 configurations; must-deliver set = all but the first (stuffing) / frames starting more than "
-            "2047 + own length octets after the noise (no stuffing). p1: 14 noise families (random, identification line only / with "
+            "2047 + own length octets after the noise (no stuffing). p1: 19 noise families (random, identification line only / with "
             "data lines / without LF, '/' + >8 KiB without LF, >8 KiB without LF, truncated readout, readout tail, lone end line, "
-            "non-ASCII identification, identification + >8 KiB line, many identification lines) followed by 2..40 clean readouts back to "
+            "non-ASCII identification, identification + >8 KiB line, many identification lines, complete readouts with a non-ASCII / non-hexadecimal "
+            "end line or non-ASCII data, '!' inside the identification line, seeded sequences of structural tokens) followed by 2..40 clean readouts back to "
             "back; must-deliver = all but the first. Oracle: each must-deliver message appears exactly once, byte-identical, valid, in "
             "order. Non-trivial = must-deliver set non-empty and (noise leaves the reader mid-frame/collecting, or ends in 7D, or the "
             "first clean message is in fact lost, or P1 noise > 8191 bytes). Distinct = case hash."
